@@ -226,8 +226,9 @@ class CFG:
             self._pdom = self._compute_dom(self.exit, "pred")
         return a.id in self._pdom[b.id]
 
-    def control_deps(self, node: Node, transitive=True) -> List[Tuple[Node, str]]:
-        """tests (and loop heads) on which `node` is control dependent, with the branch label that leads to it"""
+    def control_deps(self, node: Node, transitive=True, through_loops=True) -> List[Tuple[Node, str]]:
+        """tests (and loop heads) on which `node` is control dependent, with the branch label that leads to it.
+        through_loops=False: the transitive closure does not continue through loop heads (conditions of the same iteration only)"""
         out, seen, work = [], set(), [node]
         while work:
             n = work.pop()
@@ -239,7 +240,7 @@ class CFG:
                         if (t.id, l) not in seen:
                             seen.add((t.id, l))
                             out.append((t, l))
-                            if transitive:
+                            if transitive and (through_loops or t.kind != "loop"):
                                 work.append(t)
         return out
 
